@@ -80,12 +80,13 @@ structure DrainSame (s s' : St) : Prop where
   excStack : s'.excStack = s.excStack
   hit : s'.hit = s.hit
   log : s'.log = s.log
+  excCount : s'.excCount = s.excCount
 
 theorem drainSame (env : Env) (s : St) (n : Node) : DrainSame s (s.drainRefs env n) := by
   unfold St.drainRefs
   split
-  · exact ⟨rfl, rfl, rfl, rfl, rfl, rfl, rfl, rfl, rfl, rfl, rfl⟩
-  · split <;> exact ⟨rfl, rfl, rfl, rfl, rfl, rfl, rfl, rfl, rfl, rfl, rfl⟩
+  · exact ⟨rfl, rfl, rfl, rfl, rfl, rfl, rfl, rfl, rfl, rfl, rfl, rfl⟩
+  · split <;> exact ⟨rfl, rfl, rfl, rfl, rfl, rfl, rfl, rfl, rfl, rfl, rfl, rfl⟩
 
 theorem sameCache_pop (env : Env) (s : St) (n : Node) : SameCache s (s.pop env n) := by
   unfold St.pop
@@ -103,5 +104,37 @@ theorem sameCache_pop (env : Env) (s : St) (n : Node) : SameCache s (s.pop env n
     · exact ⟨rfl, rfl, rfl⟩
     · split <;> exact ⟨rfl, rfl, rfl⟩
   exact (h1.trans h2).trans h3
+
+/-! ### `keepExc` touches only the exception identity -/
+
+/-- everything except `curExc` / `excStack` is the same -/
+structure ExcOnly (s s' : St) : Prop where
+  data : s'.data = s.data
+  inputs : s'.inputs = s.inputs
+  gn : s'.gn = s.gn
+  ge : s'.ge = s.ge
+  rg : s'.rg = s.rg
+  stack : s'.stack = s.stack
+  idx : s'.idx = s.idx
+  refstack : s'.refstack = s.refstack
+  rolledback : s'.rolledback = s.rolledback
+  excCount : s'.excCount = s.excCount
+  hit : s'.hit = s.hit
+  log : s'.log = s.log
+
+@[simp] theorem keepExc_fst (s : St) (p : Res × St) : (keepExc s p).1 = p.1 := by
+  unfold keepExc; split <;> rfl
+
+theorem keepExc_excOnly (s : St) (p : Res × St) : ExcOnly p.2 (keepExc s p).2 := by
+  unfold keepExc; split <;> exact ⟨rfl, rfl, rfl, rfl, rfl, rfl, rfl, rfl, rfl, rfl, rfl, rfl⟩
+
+theorem keepExc_err (s : St) (p : Res × St) (e : Err) (h : p.1 = .err e) : keepExc s p = p := by
+  unfold keepExc; rw [h]
+
+theorem keepExc_ok (s : St) (p : Res × St) (v : Val) (h : p.1 = .ok v) :
+    (keepExc s p).2 = { p.2 with curExc := s.curExc, excStack := s.excStack } := by
+  unfold keepExc; rw [h]
+
+theorem ExcOnly.sameCache {s s' : St} (h : ExcOnly s s') : SameCache s s' := ⟨h.data, h.inputs, h.hit⟩
 
 end MxModel.Exec
